@@ -393,6 +393,39 @@ def m_bytesio(*args):
 
 _PROXY_FOR[SymByteArray] = bytearray
 
+_FNMATCH_CACHE = {}
+
+
+def m_fnmatchcase(name, pat):
+    """fnmatch.fnmatchcase / fnmatch.fnmatch (posix: normcase is the identity) with a symbolic name or pattern."""
+    import fnmatch
+    if isinstance(pat, SymSeq):
+        core.cur().unsupported("fnmatch with a symbolic pattern")
+    if not isinstance(name, SymSeq):
+        return fnmatch.fnmatchcase(name, pat)
+    rx = _FNMATCH_CACHE.get(pat)
+    if rx is None:
+        res = fnmatch.translate(pat)
+        rx = _FNMATCH_CACHE[pat] = re.compile(res if isinstance(pat, str) else res.encode("latin-1"))
+    return relib.p_match(rx, name) is not None
+
+
+def _fnmatch_models():
+    import fnmatch
+    return {fnmatch.fnmatch: m_fnmatchcase, fnmatch.fnmatchcase: m_fnmatchcase}
+
+
+def m_re_func(name):
+    def f(pattern, *args, **kwargs):
+        flags = kwargs.pop("flags", 0)
+        if name in ("match", "search", "fullmatch", "findall", "finditer") and len(args) > 1:
+            flags = args[1]
+            args = args[:1]
+        pat = pattern if isinstance(pattern, re.Pattern) else re.compile(pattern, flags)
+        return relib.PATTERN_METHODS[name](pat, *args, **kwargs)
+    return f
+
+
 FUNC_MODELS = {
     io.BytesIO: m_bytesio,
     builtins.isinstance: m_isinstance,
@@ -411,7 +444,12 @@ FUNC_MODELS = {
     builtins.divmod: m_divmod,
     struct.unpack: m_struct_unpack,
     struct.pack: m_struct_pack,
+    re.match: m_re_func("match"),
+    re.search: m_re_func("search"),
+    re.fullmatch: m_re_func("fullmatch"),
+    re.findall: m_re_func("findall"),
 }
+FUNC_MODELS.update(_fnmatch_models())
 
 # C-level callables that only use the generic object protocols (iteration,
 # comparison, arithmetic, truth) and therefore work natively on proxies.
